@@ -20,6 +20,7 @@ func UnmarshalJSightSchema(
 ) (schema Schema, err error) {
 	defer func() {
 		if r := recover(); r != nil {
+			verifRecovered("catalog.UnmarshalJSightSchema", r)
 			if e, ok := r.(error); ok {
 				err = e
 			} else {
